@@ -27,6 +27,9 @@ CLAIMED = {
  "C14": dict(cat="proof", tech="Coq no-UB theorems (every model function returns Ok on admissible input); UBSan/ASan differential runs at the representability boundary",
    text="Theorems C14_operator_call, C14_required_span_size, C14_stride, C14_strides, C14_is_exhaustive, C14_size, C14_find_next_multiple, C14_padded_construction, C14_default_stride: the implementation model, which makes signed overflow / zero divisors / out-of-range internal indexing an explicit UB result, returns Ok on every admissible input. Run-time correspondence under -fsanitize=address,undefined (g++ and clang++) on boundary inputs: a trap on an input the model accepts is a violation with that input as replay.",
    ref="4/C14"),
+ "C06": dict(cat="proof", tech="Coq model of maybe_static_array/extents storage (prefix-count map, every constructor loop, converting ctor, comparison) with theorems; differential correspondence over types x construction paths x pairs",
+   text="Theorems C06_scan_is_prefix_count (the index_sequence_scan recursion as written = number of dynamic positions before r), C06_from_dynamic, C06_from_all, C06_extent, C06_convert, C06_observers, C06_eq_iff (across index types/patterns, comparison in the common type), C06_neq_is_negation - all ranks and patterns by list induction. Correspondence: all masks for small ranks x seeded static values x pack/array/span x 9 argument element types, ordered pairs for conversion and comparison.",
+   ref="4/C06"),
 }
 PENDING_REASON = "check under construction in this session (Coq theorems and correspondence driver not yet committed); not claimed until both exist"
 
